@@ -246,6 +246,10 @@ pub fn check_buffer_at(buf: &[u8], owned: bool, placement: Placement) -> Result<
         if !view.tags_match_exactly(view.tags().iter().copied()) {
             return Err("tags_match_exactly(tags()) is false".into());
         }
+        // (the batteries below do not depend on who owns the storage: run for the borrowed form only)
+        if owned {
+            return Ok(());
+        }
         // tags_match_exactly(p) is the equality of two sequences, whatever kind of iterator carries p
         // (exact size hint, no upper bound, a lower bound of zero) and whichever of the two is longer
         let own: Vec<Tag> = view.tags().to_vec();
@@ -284,8 +288,8 @@ pub fn check_buffer_at(buf: &[u8], owned: bool, placement: Placement) -> Result<
         // the iterator iter() hands out, through every Iterator method a client may call
         let want_items: Vec<(u32, usize, usize)> = pairs.iter().map(|(t, r)| (*t, r.start, r.len())).collect();
         let base = buf.as_ptr() as usize;
-        mc_core::iter_battery(|| view.iter().map(|(t, v)| (t.value(), if v.is_empty() { usize::MAX } else { v.as_ptr() as usize - base }, v.len())), &want_items.iter().map(|(t, s, l)| (*t, if *l == 0 { usize::MAX } else { *s }, *l)).collect::<Vec<_>>(), "iter()")?;
-        mc_core::iter_battery(|| view.tags().iter().map(|t| t.value()), &want_tags, "tags().iter()")?;
+        mc_core::iter_battery(|| view.iter(), |(t, v)| (t.value(), if v.is_empty() { usize::MAX } else { v.as_ptr() as usize - base }, v.len()), &want_items.iter().map(|(t, s, l)| (*t, if *l == 0 { usize::MAX } else { *s }, *l)).collect::<Vec<_>>(), "iter()")?;
+        mc_core::iter_battery(|| view.tags().iter(), |t| t.value(), &want_tags, "tags().iter()")?;
         Ok(())
     });
     match checked {
